@@ -144,11 +144,15 @@ func (p *pipe) receiver() {
 					// holding the lock, we are guaranteed
 					// to be able to enqueue another
 					// message. (No other pipe can
-					// get in right now.)
-					// NB: If we ever do work to break
-					// up the locking, we will need to
-					// revisit this.
-					c.recvQ <- m
+					// get in right now.)  The exception is
+					// a queue of length zero, which never
+					// has room: never block while holding
+					// the lock, drop the message instead.
+					select {
+					case c.recvQ <- m:
+					default:
+						m.Free()
+					}
 				}
 			}
 		}
@@ -264,7 +268,7 @@ func (c *context) SetOption(name string, value interface{}) error {
 
 	switch name {
 	case protocol.OptionReadQLen:
-		if v, ok := value.(int); ok {
+		if v, ok := value.(int); ok && v >= 0 {
 			recvQ := make(chan *protocol.Message, v)
 			sizeQ := make(chan struct{})
 			c.s.Lock()
